@@ -113,7 +113,8 @@ _HOT: frozenset[Any] | None = None
 def hot_codes() -> frozenset[Any]:
     """Code objects of btclib functions that touch state shared between callers without a lock: a function that
     names a hand-rolled memo dict of its module (discover_memo_dicts), and a function outside object construction
-    that stores a private attribute (a lazily filled per-object cache, a wipe). The thread scheduler's rendezvous
+    that stores a private attribute (a lazily filled per-object cache, a wipe) or stores into a subscript after loading one
+    (a table filled in place, `self._words[lang] = ...`). The thread scheduler's rendezvous
     strategy parks a thread inside one of these until another thread has passed through one."""
     global _HOT  # noqa: PLW0603
     if _HOT is not None:
@@ -144,8 +145,15 @@ def hot_codes() -> frozenset[Any]:
                 if memo_names.get(modname, set()) & set(code.co_names):
                     found.add(code)
                     continue
+                private_loaded = False
                 for ins in dis.get_instructions(code):
                     if ins.opname == "STORE_ATTR" and str(ins.argval).startswith("_") and not str(ins.argval).startswith("__"):
+                        found.add(code)
+                        break
+                    # ... or fills one in place: `self._table[key] = value` stores no attribute, and is the same publication
+                    if ins.opname == "LOAD_ATTR" and str(ins.argval).startswith("_") and not str(ins.argval).startswith("__"):
+                        private_loaded = True
+                    if ins.opname in ("STORE_SUBSCR", "DELETE_SUBSCR") and private_loaded:
                         found.add(code)
                         break
     _HOT = frozenset(found)
